@@ -38,7 +38,10 @@ func genC09Eval(r *gen.Rand, files map[string]string) ([]wire.Op, []string) {
 	cfg.PBad = gen.PickAny(r, []float64{0, 0, 0, 0.05})
 	cfg.PSelf = gen.PickAny(r, []float64{0, 0, 0.1, 0.3})
 	cfg.Escape = cfg.Escape || r.Chance(0.3)
-	merges, planted := genStream(r, cfg, files, 8)
+	// (no shared sub-objects here: merging in place into a caller-built DAG is
+	// order-dependent by construction — two patch keys that reach the same
+	// object — and no file, flag or environment can express such an input)
+	merges, planted := genStream(r, cfg, files, 8, false)
 	ops := append([]wire.Op{}, merges...)
 	ops = append(ops, wire.Op{Op: "Output", Format: "json"}, wire.Op{Op: "Output", Format: r.Pick("yaml", "toml", "json-pretty")}, wire.Op{Op: "OutputDocuments"})
 	return ops, planted
